@@ -40,7 +40,7 @@ CHECK = {
          'the same ID, or more than span+25 requests for a range of span heights, or 45 s without request or end (stack attached); any ending (blocks or '
          'error) passes. (6) SEMANTICALLY HOSTILE, WELL-FORMED, CORRECTLY SIGNED BLOCKS OF A LEGITIMATE VALIDATOR (target Executer.process.signed): a '
          'fresh real node per case (1-10 active validators, 0-3 standby generators, equal or changed validator set with unequal weights, 0-40 honest '
-         'blocks with transactions, assets, events and aggregate commits; history snapshot reopened per case), the valid successor of the tip built as '
+         'blocks with transactions, assets, events and aggregate commits; history snapshot reopened per case, i.e. every case starts on a node that has processed nothing since it started), the valid successor of the tip built as '
          'the scheduled generator would, every header field the signer controls set to boundary and extreme values and the header RE-SIGNED with the '
          'generator key in force, sent through the wire encoding to Executer.process (what onBlockReceived runs on the consensus goroutine) and to '
          'Validate + processValidated (what sync does with a downloaded block): maxHeightGenerated (height-2..height+2, height+1000, previous block of '
@@ -54,8 +54,18 @@ CHECK = {
          'them / absent / unparsable, the same values signed by another key or not re-signed, combinations (maxHeightGenerated > height with '
          'impliesMaxPrevotes, aggregate commit, payload, later slot, wrong roots), sequences of 2-7 blocks (the hostile block, then the honest blocks '
          'of the others, the same generator again with repeated / honest / smaller values), and siblings of the tip offered in the current slot (fork '
-         'choice tie break: tip deleted, sibling applied, old tip re-applied on failure) carrying the same values; rapid: drawn configuration, 1-5 '
-         'consecutive blocks of 0-3 drawn operations (field = base+-delta | boundary | random). Oracle: the call returns (panic recovered with its site, '
+         'choice tie break: tip deleted, sibling applied, old tip re-applied on failure) carrying the same values; NODE STATES with respect to the '
+         'reception time fork choice keeps for the tip (Executer.lastBlockReceived: nil from process start until a block was received IN ORDER through '
+         'process; the sync paths never set it) - operations pre=asis|restart|sync:K|recv:K executed immediately before the block / sibling is built and '
+         'offered: node just opened on the stored history (new Executer on an existing database, nothing processed since), node RESTARTED (node harness '
+         'Restart: Chain, Executer, connection and database handle dropped and reopened on the same database and application state) with or without '
+         '1-3 blocks received in order before, last 1-3 blocks applied only through Validate + processValidated (synced only), reception time belonging to '
+         'an older block (received in order, then synced), tip received in order just now (its slot is long past: tie break without any hook), '
+         'restarts in the middle of a sequence and after a reverted tie break, genesis-only nodes and the very first block after genesis (29 catalogue '
+         'entries on every configuration; configurations with 0 and 1 history blocks also in the quick tier for these entries); rapid: drawn configuration, 1-5 '
+         'consecutive blocks of 0-3 drawn operations (field = base+-delta | boundary | random), a quarter of the blocks in front of a drawn node state (8 kinds), '
+         'half of those siblings of the tip; fixed regression TestRegressTieBreakSiblingAfterRestart (5 siblings on restarted / just opened / synced-only '
+         'nodes). Oracle: the call returns (panic recovered with its site, '
          'watchdog, 2 s soft bound), the node afterwards processes a fresh valid block on whatever its tip is, no goroutine is left behind once the node '
          'is closed; acceptance itself is not judged (C03). Non-trivial = derived from a valid message/argument set by <= 3 mutations, or passing the target\'s first '
          'decoding step (wire cases: only if the effect at the victim was observed; downloads: only if the scripted peer was asked); distinct by digest '
